@@ -352,3 +352,28 @@ func rulePredictOpenOnly(r *Report) {
 	}
 	r.Min("predict-open", 4)
 }
+
+// rulePredictSubset copies selected R-PREDICT obligations under another rule name.
+func rulePredictSubset(r *Report, rule string, parts []string) {
+	tmp := newReport(r.E, r.Property)
+	rulePredict(tmp)
+	n := 0
+	for _, o := range tmp.Obls {
+		keep := strings.Contains(o.Key, "undecided")
+		for _, p := range parts {
+			if strings.Contains(o.Key, p) {
+				keep = true
+			}
+		}
+		if keep {
+			o.Rule = rule
+			o.Key = rule + strings.TrimPrefix(o.Key, "predict")
+			r.Obls = append(r.Obls, o)
+			n++
+		}
+	}
+	for f := range tmp.Funcs {
+		r.Funcs[f] = true
+	}
+	r.Min(rule, 8)
+}
